@@ -18,14 +18,15 @@ type Tape struct {
 
 // NewTape returns a generating tape: first the forced words, then PRNG(seed).
 func NewTape(seed uint64, forced []uint32) *Tape {
-	return &Tape{state: seed, forced: forced}
+	return &Tape{state: seed, forced: forced, rec: make([]uint32, 0, 8192)}
 }
 
 // ReplayTape returns a tape that replays words and yields 0 past their end.
 func ReplayTape(words []uint32) *Tape {
-	return &Tape{replay: words, isRep: true}
+	return &Tape{replay: words, isRep: true, rec: make([]uint32, 0, 8192)}
 }
 
+//go:norace
 func (t *Tape) next() uint32 {
 	// splitmix64
 	t.state += 0x9e3779b97f4a7c15
@@ -36,6 +37,7 @@ func (t *Tape) next() uint32 {
 	return uint32(z >> 32)
 }
 
+//go:norace
 func (t *Tape) word() uint32 {
 	var w uint32
 	if t.isRep {
@@ -57,6 +59,8 @@ func (t *Tape) word() uint32 {
 }
 
 // Draw returns a value in [0,n). n<=1 consumes nothing and returns 0.
+//
+//go:norace
 func (t *Tape) Draw(n int) int {
 	if n <= 1 {
 		return 0
@@ -65,6 +69,8 @@ func (t *Tape) Draw(n int) int {
 }
 
 // Pct returns true with probability p percent (false is the simple choice).
+//
+//go:norace
 func (t *Tape) Pct(p int) bool {
 	if p <= 0 {
 		return false
@@ -77,6 +83,8 @@ func (t *Tape) Pct(p int) bool {
 }
 
 // Range returns a value in [lo,hi].
+//
+//go:norace
 func (t *Tape) Range(lo, hi int) int {
 	if hi <= lo {
 		return lo
@@ -85,6 +93,8 @@ func (t *Tape) Range(lo, hi int) int {
 }
 
 // Weighted picks an index with the given weights (index 0 = simplest).
+//
+//go:norace
 func (t *Tape) Weighted(w ...int) int {
 	tot := 0
 	for _, x := range w {
@@ -104,12 +114,18 @@ func (t *Tape) Weighted(w ...int) int {
 }
 
 // U32 returns a raw word (used as a content seed).
+//
+//go:norace
 func (t *Tape) U32() uint32 { return t.word() }
 
 // Words returns the words consumed so far.
+//
+//go:norace
 func (t *Tape) Words() []uint32 { return append([]uint32(nil), t.rec...) }
 
 // Consumed is the number of words consumed.
+//
+//go:norace
 func (t *Tape) Consumed() int { return len(t.rec) }
 
 // Mix derives a per-run seed from a batch seed, a property name and an index.
@@ -128,6 +144,8 @@ func Mix(seed uint64, prop string, i uint64) uint64 {
 type LocalRNG struct{ s uint64 }
 
 func NewLocalRNG(seed uint64) *LocalRNG { return &LocalRNG{s: seed*2654435761 + 1} }
+
+//go:norace
 func (r *LocalRNG) Next() uint64 {
 	r.s += 0x9e3779b97f4a7c15
 	z := r.s
@@ -135,6 +153,8 @@ func (r *LocalRNG) Next() uint64 {
 	z = (z ^ (z >> 27)) * 0x94d049bb133111eb
 	return z ^ (z >> 31)
 }
+
+//go:norace
 func (r *LocalRNG) Intn(n int) int {
 	if n <= 1 {
 		return 0
